@@ -43,7 +43,7 @@ TReset == /\ (IsEvent("reset") \/ IsEvent("abort"))
           /\ broken' = FALSE /\ delivered' = <<>> /\ old' = old /\ hist' = hist
 
 TInit == /\ IsEvent("Init")
-         /\ LET a == TraceLog[l].args IN a.n = N /\ a.w = W /\ a.body = Body
+         /\ LET a == TraceLog[l].args IN a.n = N /\ a.w = W /\ a.body = Body /\ a.maxp = MaxProc
          /\ UNCHANGED vars
 
 TSkip == /\ IsEvent("Complete") /\ UNCHANGED vars
